@@ -336,9 +336,14 @@ def run_solve(eq, s0, case, dt, steps, *, deterministic=False, scale=1.0):
     return res.data.copy(), info["solver"]["steps"]
 
 
+_MAXREL = [0.0]
+
+
 def _close(np, got, exp, tol=TOL, scale=1.0):
     scale = max(1.0, scale, float(np.max(np.abs(exp))))
     err = float(np.max(np.abs(got - exp)))
+    if err <= tol * scale:
+        _MAXREL[0] = max(_MAXREL[0], err / scale)  # largest accepted deviation (reported in the evidence)
     return err <= tol * scale, err
 
 
@@ -395,6 +400,7 @@ def sde_case(case):
     dts, stepss, seeds = case.get("dts", DTS), case.get("steps", STEPS), case.get("seeds", SEEDS)
     only = case.get("only")
     viol, keys, outs, refs, n = [], [], set(), [], 0
+    _MAXREL[0] = 0.0
 
     def bad(clause, dt, steps, seed, **detail):
         c = dict(case)
@@ -553,7 +559,8 @@ def sde_case(case):
                 for s2 in ss[i + 1 :]:
                     if np.array_equal(per_seed[s1], per_seed[s2]):
                         bad("different seeds give identical results", dt, steps, s1, other=s2)
-    return {"v": viol[:10], "n": n, "keys": keys, "outs": sorted(outs), "ref": sorted(set(refs)), "nt": bool(keys)}
+    return {"v": viol[:10], "n": n, "keys": keys, "outs": sorted(outs), "ref": sorted(set(refs)), "nt": bool(keys),
+            "maxrel": _MAXREL[0]}
 
 
 # ----------------------------------------------------------------------------------------------
@@ -586,6 +593,7 @@ def lib_case(case):
     label = f"{case['gname']}|{cname}|scalar|ito|{solver}"
     only = case.get("only")
     viol, keys, n = [], [], 0
+    _MAXREL[0] = 0.0
 
     def bad(clause, dt, steps, seed, **detail):
         c = dict(case)
@@ -628,7 +636,8 @@ def lib_case(case):
                 if not np.array_equal(again, got):
                     bad("two runs with the same seed are not bitwise equal", dt, steps, seed)
                 keys.append(f"{label}|{dt}|{steps}|{seed}")
-    return {"v": viol[:10], "n": n, "keys": keys, "out": "ok: stochastic update matches" if not viol else "violation"}
+    return {"v": viol[:10], "n": n, "keys": keys, "out": "ok: stochastic update matches" if not viol else "violation",
+            "maxrel": _MAXREL[0]}
 
 
 # ----------------------------------------------------------------------------------------------
@@ -728,6 +737,7 @@ def jit_case(case):
     sol = SolverBase.from_name(solver, pde=eq, backend="numba", **iter_args(solver, scale))
     stepper = sol.make_stepper(state=s0.copy(), dt=dt)
     viol, keys, n = [], [], 0
+    _MAXREL[0] = 0.0
 
     def bad(clause, steps, seed, **detail):
         viol.append({"sig": f"{label}|{clause}", "msg": f"{label}: {clause}: dt={dt} steps={steps} seed={seed} {detail}",
@@ -759,7 +769,8 @@ def jit_case(case):
                 bad("different seeds give identical results", steps, seed)
             prev.setdefault(steps, []).append((seed, got))
             keys.append(f"{label}|{dt}|{steps}|{seed}")
-    return {"v": viol[:8], "n": n, "keys": keys, "out": "ok: compiled stochastic update matches" if not viol else "violation"}
+    return {"v": viol[:8], "n": n, "keys": keys, "out": "ok: compiled stochastic update matches" if not viol else "violation",
+            "maxrel": _MAXREL[0]}
 
 
 def _by_name(gname):
@@ -824,9 +835,16 @@ def main(run):
         return not only or p in only
 
     bounds = BOUNDS[tier]
+    maxrel: dict = {}
+
+    def explore(fn, cs, *, key, **kw):
+        res = run.explore(fn, cs, collect=True, **kw)
+        maxrel[key] = max([r.get("maxrel", 0.0) for _, r in res] + [maxrel.get(key, 0.0)])
+
     cases = [dict(c, **bounds) for c in build_cases(tier, run.seed)]
     if want("numpy"):
-        run.explore("checks.c13:sde_case", cases, mode="I", part="numpy backend: documented update, replicated generator")
+        explore("checks.c13:sde_case", cases, key="numpy", mode="I",
+                part="numpy backend: documented update, replicated generator")
     if want("lib"):
         # (cart-tiny is left out: 4th-order operators on 4e-4 wide cells overflow within a few explicit steps)
         lcases = [
@@ -836,7 +854,8 @@ def main(run):
             for c, (_, solvers) in LIB_CLASSES.items()
             for s in solvers
         ]
-        run.explore("checks.c13:lib_case", lcases, mode="I", part="predefined stochastic PDE classes", chunksize=1)
+        explore("checks.c13:lib_case", lcases, key="predefined classes", mode="I", part="predefined stochastic PDE classes",
+                chunksize=1)
     if want("refusals"):
         rcases = [
             {"grid": GRIDS[2][1], "solver": s, "kw": kw, "backend": b, "cls": c, "vseed": run.seed}
@@ -850,10 +869,12 @@ def main(run):
         nb_bounds = {} if tier == "thorough" else {"dts": [0.1], "seeds": [0, 1]}
         ncases = [dict(c, backend="numba", **nb_bounds)
                   for c in cases if c["noise"]["kind"] not in ("tiny", "field-dependent-nodiff")]
-        run.explore("checks.c13:sde_case", ncases, mode="I", part="numba backend (interpreted), legacy global generator")
+        explore("checks.c13:sde_case", ncases, key="numba interpreted", mode="I",
+                part="numba backend (interpreted), legacy global generator")
     if want("jit"):
-        run.explore("checks.c13:jit_case", jit_cases(tier, run.seed), mode="J", part="compiled stochastic steppers",
-                    chunksize=1, limit=1200, nproc=min(16, len(jit_cases(tier, run.seed))))
+        jc = jit_cases(tier, run.seed)
+        explore("checks.c13:jit_case", jc, key="compiled", mode="J", part="compiled stochastic steppers",
+                chunksize=1, limit=1200, nproc=min(16, len(jc)))
     run.assumptions += [
         "deterministic part du/dt = -0.5 u (per-field rates -0.5/-0.25/-0.75 for the PDE class); its Euler / fixed-point map is "
         "computed in closed form; predefined classes use the zero-noise step of the same solver (verified by C06)",
@@ -865,6 +886,7 @@ def main(run):
         "numba backend: the generator is process-global; seeded with pde.tools.numba.random_seed and replicated draw by draw",
         "semi-implicit + field-dependent variance + non-Ito interpretation: nothing demanded (observed: drift omitted silently)",
     ]
+    run.notes["largest_accepted_relative_deviation"] = dict(maxrel, tolerance=TOL)
     run.notes["bounds"] = dict(bounds, solvers=SOLVERS, interpretations=list(ALPHA),
                                numba_interpreted="dt 0.1, seeds 0-1" if tier == "quick" else "as numpy",
                                compiled="one dt per case, steps 1-3, seeds 0-2")
